@@ -4,7 +4,7 @@ from __future__ import annotations
 import ast
 
 from engine.defuse import value_sources
-from engine.flow import dominating_guards, expand_aliases, known_not_none, must_pass, none_test, path_avoiding, reachable_from_entry, returns_of
+from engine.flow import deref, dominating_guards, expand_aliases, known_not_none, must_pass, none_test, path_avoiding, reachable_from_entry, returns_of
 from .common import CALLS, open_mode
 
 META = {
@@ -29,16 +29,45 @@ META = {
 def slot_of(cls):
     """The attribute holding key material: the one compared by len(...) in a raising validator."""
     for f in cls.methods.values():
+        if not any(isinstance(x, ast.Raise) for x in ast.walk(f.node)):
+            continue
         for x in ast.walk(f.node):
             if isinstance(x, ast.Compare) and isinstance(x.left, ast.Call) and isinstance(x.left.func, ast.Name) \
-                    and x.left.func.id == "len" and x.left.args and isinstance(x.left.args[0], ast.Attribute) \
-                    and isinstance(x.left.args[0].value, ast.Name) and x.left.args[0].value.id == f.self_name:
-                return x.left.args[0].attr, f, x
+                    and x.left.func.id == "len" and x.left.args:
+                a0 = x.left.args[0]
+                if isinstance(a0, ast.Name):
+                    a0 = deref(f, a0, None)       # `key = self.__key; ... len(key) == N`
+                if isinstance(a0, ast.Attribute) and isinstance(a0.value, ast.Name) and a0.value.id == f.self_name:
+                    return a0.attr, f, x
     return None, None, None
 
 
 def is_slot(e, fn, slot):
     return isinstance(e, ast.Attribute) and e.attr == slot and isinstance(e.value, ast.Name) and e.value.id == fn.self_name
+
+
+def slot_polarity(fn, e, at, slot, depth=0):
+    """+1 when `e` being true means the key slot holds something, -1 when it means the slot is empty, None otherwise
+    (through local flags: `is_open = bool(self.__key)`, `closed = self.__key is None`)"""
+    if depth > 5:
+        return None
+    if is_slot(e, fn, slot):
+        return 1
+    if isinstance(e, ast.UnaryOp) and isinstance(e.op, ast.Not):
+        p = slot_polarity(fn, e.operand, at, slot, depth + 1)
+        return -p if p else None
+    if isinstance(e, ast.Call) and isinstance(e.func, ast.Name) and e.func.id == "bool" and len(e.args) == 1:
+        return slot_polarity(fn, e.args[0], at, slot, depth + 1)
+    if isinstance(e, ast.Compare) and len(e.ops) == 1 and isinstance(e.comparators[0], ast.Constant) and e.comparators[0].value is None:
+        p = slot_polarity(fn, e.left, at, slot, depth + 1)
+        if p == 1:
+            return 1 if isinstance(e.ops[0], (ast.IsNot, ast.NotEq)) else -1
+        return None
+    if isinstance(e, ast.Name):
+        srcs = value_sources(fn, e, at)
+        if len(srcs) == 1 and srcs[0][0] == "expr" and isinstance(srcs[0][1], ast.AST) and srcs[0][1] is not e:
+            return slot_polarity(fn, srcs[0][1], None, slot, depth + 1)
+    return None
 
 
 def slot_store(n, fn, slot):
@@ -201,6 +230,8 @@ def check(ctx):
             if n not in reach or n.kind != "call":
                 continue
             argl = list(n.ast.args) + [k.value for k in n.ast.keywords]
+            if isinstance(n.ast.func, ast.Name) and n.ast.func.id in ("bool", "len", "isinstance", "type"):
+                continue        # a test of the slot is not a use of the key
             if any(is_slot(x, f, slot) for a in argl for x in ast.walk(a)):
                 uses.append(n)
             elif any(c.cls is KF and c.name == "_get_provider" for c in an.callees(f, n)):
@@ -208,7 +239,7 @@ def check(ctx):
         ctx.need(bool(uses), "KeyFile.%s no longer uses the key: vanished anchor" % name)
         for u in uses:
             dg = dominating_guards(an, f, u)
-            okg = any(tr and is_slot(t.ast, f, slot) for t, tr in dg)
+            okg = any((tr and slot_polarity(f, t.ast, t, slot) == 1) or ((not tr) and slot_polarity(f, t.ast, t, slot) == -1) for t, tr in dg)
             ctx.ob("guard.key-loaded", f, u.ast, okg,
                    "dominated by the raise-if-no-key guard" if okg else
                    "the key is used without checking that the key file is open (a closed KeyFile would run with None)", node=u)
@@ -216,16 +247,53 @@ def check(ctx):
     # ---------------------------------------------------------------- C07.3 enter / exit
     ent = model.method("KeyFile", "__enter__")
     ext = model.method("KeyFile", "__exit__")
+    def step_of(f, n):
+        """(attr, op class, value expr) when node n adds / subtracts 1 to an attribute of self: `self.c -= 1`, or
+        `self.c = self.c - 1` (also through a local: `left = self.c - 1; self.c = left`)"""
+        if n.kind != "assign":
+            return None
+        st = n.ast
+        if isinstance(st, ast.AugAssign) and isinstance(st.op, (ast.Add, ast.Sub)) and isinstance(st.target, ast.Attribute) \
+                and isinstance(st.target.value, ast.Name) and st.target.value.id == f.self_name \
+                and isinstance(st.value, ast.Constant) and st.value.value == 1:
+            return st.target.attr, type(st.op), None
+        if isinstance(st, ast.Assign) and len(st.targets) == 1 and isinstance(st.targets[0], ast.Attribute) \
+                and isinstance(st.targets[0].value, ast.Name) and st.targets[0].value.id == f.self_name:
+            attr = st.targets[0].attr
+            srcs = value_sources(f, st.value, n) if isinstance(st.value, ast.Name) else [("expr", st.value)]
+            if len(srcs) == 1 and srcs[0][0] == "expr" and isinstance(srcs[0][1], ast.BinOp) and isinstance(srcs[0][1].op, (ast.Add, ast.Sub)):
+                b = srcs[0][1]
+                if isinstance(b.left, ast.Attribute) and b.left.attr == attr and isinstance(b.left.value, ast.Name) and b.left.value.id == f.self_name \
+                        and isinstance(b.right, ast.Constant) and b.right.value == 1:
+                    return attr, type(b.op), b
+        return None
     counter = None
-    for x in ast.walk(ext.node):
-        if isinstance(x, ast.AugAssign) and isinstance(x.op, ast.Sub) and isinstance(x.target, ast.Attribute):
-            counter = x.target.attr
+    new_value_exprs = []
+    for n in an.cfg(ext).nodes:
+        so = step_of(ext, n)
+        if so is not None and so[1] is ast.Sub:
+            counter = so[0]
+            if so[2] is not None:
+                new_value_exprs.append(so[2])
     ctx.need(counter is not None, "KeyFile.__exit__ no longer decrements a counter: vanished anchor")
 
     def counter_nodes(f, op):
-        return {n for n in an.cfg(f).nodes if n.kind == "assign" and isinstance(n.ast, ast.AugAssign) and isinstance(n.ast.op, op)
-                and isinstance(n.ast.target, ast.Attribute) and n.ast.target.attr == counter
-                and isinstance(n.ast.value, ast.Constant) and n.ast.value.value == 1}
+        out_ = set()
+        for n in an.cfg(f).nodes:
+            so = step_of(f, n)
+            if so is not None and so[0] == counter and so[1] is op:
+                out_.add(n)
+        return out_
+
+    def as_counter(f, e, t):
+        """the counter attribute, or a local that holds the value just written to it"""
+        e2 = expand_aliases(f, e, t)
+        if isinstance(e2, ast.Attribute) and e2.attr == counter:
+            return True
+        if isinstance(e, ast.Name):
+            srcs = value_sources(f, e, t)
+            return bool(srcs) and all(k == "expr" and any(pl is b for b in new_value_exprs) for k, pl in srcs)
+        return False
 
     g = an.cfg(ext)
     decs = counter_nodes(ext, ast.Sub)
@@ -237,14 +305,14 @@ def check(ctx):
     okc = False
     for c in clears:
         for t, tr in dominating_guards(an, ext, c):
-            e = expand_aliases(ext, t.ast, t)
-            if tr and isinstance(e, ast.Compare) and isinstance(e.ops[0], (ast.Eq, ast.LtE)) and isinstance(e.left, ast.Attribute) \
-                    and e.left.attr == counter and isinstance(e.comparators[0], ast.Constant) and e.comparators[0].value == 0:
-                okc = True
-            if tr and isinstance(e, ast.Compare) and isinstance(e.ops[0], ast.Lt) and isinstance(e.left, ast.Attribute) \
-                    and e.left.attr == counter and isinstance(e.comparators[0], ast.Constant) and e.comparators[0].value == 1:
-                okc = True
-            if (not tr) and isinstance(e, ast.Attribute) and e.attr == counter:
+            e = t.ast
+            if isinstance(e, ast.Compare) and len(e.ops) == 1 and as_counter(ext, e.left, t) and isinstance(e.comparators[0], ast.Constant):
+                c0, op = e.comparators[0].value, e.ops[0]
+                if c0 == 0 and ((tr and isinstance(op, (ast.Eq, ast.LtE))) or ((not tr) and isinstance(op, (ast.NotEq, ast.Gt)))):
+                    okc = True
+                if c0 == 1 and ((tr and isinstance(op, ast.Lt)) or ((not tr) and isinstance(op, ast.GtE))):
+                    okc = True
+            if (not tr) and as_counter(ext, e, t):
                 okc = True      # `if not self.__refcount:` -- a count is falsy exactly at 0
     # and the clear is reached whenever the counter hits zero: no other exit from that branch
     ctx.ob("exit.clears-at-zero", ext, "slot = None when the counter reaches 0", okc,
@@ -275,7 +343,10 @@ def check(ctx):
     loads = {n for n in g.nodes if any(c.cls is KF and "load" in c.name for c in an.callees(ent, n))}
     ctx.need(bool(loads), "KeyFile.__enter__ no longer loads the key: vanished anchor")
     def cut_has_key(a, b, lbl):
-        return not (a.kind == "test" and is_slot(a.ast, ent, slot) and lbl is True)
+        if a.kind != "test":
+            return True
+        pol = slot_polarity(ent, a.ast, a, slot)
+        return not ((pol == 1 and lbl is True) or (pol == -1 and lbl is False))
     p = path_avoiding(an, ent, g.entry, lambda n: n is g.exit, lambda n: n in loads, edge_filter=cut_has_key)
     ctx.ob("enter.loads-when-closed", ent, "load the key unless one is already held", p is None,
            "a KeyFile without key material always loads on __enter__" if p is None else
